@@ -42,7 +42,11 @@ manifest = {
     },
     "engines": [
         {"name": "hypothesis", "path": "pbt/runner.py", "serves_properties": [c["property_id"] for c in checks],
-         "kind_free_text": "Hypothesis 6.168 generated-input search (recipes -> DSL), sharded over 16 processes, seeded by VERIF_SEED, failures shrunk to a replay file"},
+         "kind_free_text": "Hypothesis 6.168 generated-input search (recipes -> DSL), sharded over 16 processes, seeded by VERIF_SEED, failures shrunk to a replay file; exhaustive enumeration where the universe is finite (C08 node x zoo product, C10 chains <= 2, C11 base universe, C19 mapping table)"},
+        {"name": "atheris", "path": "pbt/fuzz_c09.py, pbt/fuzz_c19.py, pbt/fuzz_hyp.py", "serves_properties": ["C02", "C03", "C06", "C09", "C12", "C13", "C15", "C19"],
+         "kind_free_text": "thorough tier only: libFuzzer campaigns with the semantic oracle inside the target - raw regex text (C09), mutated Python modules (C19), and the Hypothesis strategy itself driven through fuzz_one_input with coverage feedback from d42 (C02 C03 C06 C12 C13 C15)"},
+        {"name": "process pools", "path": "pbt/c17_worker.py, pbt/pristine.py", "serves_properties": ["C07", "C17"],
+         "kind_free_text": "fresh interpreters with different PYTHONHASHSEED (C17) and a fork-per-request history-free evaluator (C07) used as differential oracles"},
     ],
     "checks": checks,
     "not_applicable": na,
